@@ -45,6 +45,19 @@ func Minimise(sc *Scenario, fails func(*Scenario) bool) *Scenario {
 			if i >= len(cur.Ops) {
 				continue
 			}
+			if cur.Ops[i].Kind == "connect" {
+				nc := 0
+				for _, o := range cur.Ops {
+					if o.Kind == "connect" {
+						nc++
+					}
+				}
+				if nc == 1 {
+					// a scenario without any Connect trivially "loses" everything: not a
+					// smaller instance of the same violation
+					continue
+				}
+			}
 			c := removeOp(cur, i)
 			if c != nil && try(c) {
 				progress = true
